@@ -29,7 +29,7 @@ REQUIRED_COUNTERS = ["subprocess_runs", "inputs_compared", "distinct_probe_order
 ASSUMPTIONS = ["hash seeds and schedules are sampled, not enumerated", "polyphasegenetic and learn are not driven: the repository ships no end-to-end input for them (tests/data only feeds unit tests)"]
 WATCHDOG = {"quick": 900, "thorough": 2400}
 KINDS = ["phase", "phase_ped", "phase_quartet", "genotype", "haplotag", "polyphase", "compare", "stats", "unphase", "split",
-         "haplotagphase", "hapcut2vcf", "find_snv", "polyphase_allhet", "polyphase_prephased"]
+         "haplotagphase", "hapcut2vcf", "find_snv", "polyphase_allhet", "polyphase_prephased", "haplotag_ignore_rg"]
 
 
 def lanes(tier):
@@ -106,7 +106,7 @@ def build_input(kind, rng, tmp):
             return args, outs
 
         return make, samples, variants
-    if kind in ("haplotag", "haplotagphase", "split"):
+    if kind in ("haplotag", "haplotagphase", "split", "haplotag_ignore_rg"):
         samples = ["zeta", "alpha"]
         p = {"n_chrom": 2, "chrom_len": 2500, "n_var": 12, "kinds": ["snv"], "samples": samples, "depth": 6, "read_len": (200, 700),
              "paired": 0.5, "error_rate": 0.02, "het_prob": 0.85}
@@ -114,6 +114,16 @@ def build_input(kind, rng, tmp):
         doc, blocks = genome.truth_phased_doc(sim, rng, tag="PS", block_len=(3, 8))
         vcf = os.path.join(tmp, "phased.vcf.gz")
         doc.write(vcf, compress=True)
+        if kind == "haplotag_ignore_rg":
+            # read groups ignored, two samples of the VCF requested: every read is scored against both samples' phasings
+
+            def make(outdir):
+                out = os.path.join(outdir, "out.bam")
+                lst = os.path.join(outdir, "list.tsv")
+                return ["haplotag", "--reference", sim.fasta, "-o", out, "--output-haplotag-list", lst, "--ignore-read-groups",
+                        "--sample", "zeta", "--sample", "alpha", vcf, sim.bams[0]], [out, lst]
+
+            return make, samples, variants
         if kind == "haplotag":
             variants = variants + [("ot2", {"PYTHONHASHSEED": "0"}, ["--output-threads", "2"]), ("ot4", {"PYTHONHASHSEED": "1"}, ["--output-threads", "4"])]
 
